@@ -97,7 +97,29 @@ func stressServe(h http.Handler, q Req, hook func(string)) (out string, pan stri
 	return fmt.Sprintf("%d %s %q", w.status, fp, w.body), ""
 }
 
+// stressCmd runs the stress under a watchdog: free-running goroutines that
+// never finish (a lock held across a callback and re-acquired re-entrantly, a
+// lost wake-up) are a violation of "you can safely reconfigure a middleware
+// even as it's concurrently processing requests", not a reason to hang.
 func stressCmd(dur time.Duration, goroutines int, seed uint64, outFile string) int {
+	done := make(chan int, 1)
+	go func() { done <- stressRun(dur, goroutines, seed, outFile) }()
+	grace := 45 * time.Second
+	select {
+	case rc := <-done:
+		return rc
+	case <-time.After(dur + grace):
+		msg := fmt.Sprintf("DEADLOCK under real concurrency: the stress did not finish %v after its %v budget (goroutines stuck in the middleware; typical cause: a lock held while calling the ResponseWriter or the wrapped handler, which re-enter Reconfigure/SetDebug)", grace, dur)
+		b, _ := json.MarshalIndent(map[string]any{"first_mismatch": msg, "responses_matching_no_state": 1, "seed": seed, "duration_s": dur.Seconds(), "goroutines": goroutines}, "", " ")
+		if outFile != "" {
+			os.WriteFile(outFile, b, 0o644)
+		}
+		fmt.Println(string(b))
+		return 1
+	}
+}
+
+func stressRun(dur time.Duration, goroutines int, seed uint64, outFile string) int {
 	var nReq, nOp, nReent, bad, rounds atomic.Int64
 	var firstBad atomic.Value
 	fail := func(format string, a ...any) {
